@@ -10,6 +10,7 @@ CONSTANTS
   LoopForever = FALSE
   FastPathChecksAtomicQ = TRUE
   Sleeper = TRUE
+  SRun = FALSE
 CONSTRAINT Furthest
 POSTCONDITION Report
 CHECK_DEADLOCK FALSE
